@@ -262,6 +262,19 @@ impl crate::Executor for Exec {
                 st.fdl.set_offline();
                 "ok".into()
             }
+            ["st.napps", k] => {
+                // the application list may be changed while the station is offline (documented)
+                if st.fdl.connectivity_state() != profirust::fdl::ConnectivityState::Offline {
+                    return "bad-op".into();
+                }
+                let k: usize = k.parse().unwrap();
+                st.apps.truncate(k);
+                while st.apps.len() < k {
+                    let idx = st.apps.len();
+                    st.apps.push(ScriptApp { idx, script: VecDeque::new(), log: st.log.clone() });
+                }
+                "ok".into()
+            }
             ["st.script", app, answers @ ..] => {
                 let i: usize = app.parse().unwrap();
                 if i >= st.apps.len() {
@@ -346,6 +359,15 @@ impl<'a> Gen<'a> {
             }
             ["st.phytx", b] => {
                 self.st.phy.transmitting = *b == "1";
+                ("ok".into(), None)
+            }
+            ["st.napps", k] => {
+                let k: usize = k.parse().unwrap();
+                self.st.apps.truncate(k);
+                while self.st.apps.len() < k {
+                    let idx = self.st.apps.len();
+                    self.st.apps.push(ScriptApp { idx, script: VecDeque::new(), log: self.st.log.clone() });
+                }
                 ("ok".into(), None)
             }
             ["st.script", app, answers @ ..] => {
@@ -496,7 +518,13 @@ fn random_answers(rng: &mut Rng, ts: u8, peers: &[u8], n: usize) -> Vec<String> 
             if rng.chance(2, 5) {
                 "d".to_string()
             } else {
-                let req = *rng.pick(&[RequestType::SrdLow, RequestType::SrdHigh, RequestType::SdnLow, RequestType::FdlStatus, RequestType::SdaLow]);
+                // mostly the common services, one time in three any of the twelve request kinds (incl. MulticastSrd,
+                // Ident, LsapStatus, clock/time events)
+                let req = if rng.chance(1, 3) {
+                    *rng.pick(&crate::codec::ALL_REQ)
+                } else {
+                    *rng.pick(&[RequestType::SrdLow, RequestType::SrdHigh, RequestType::SdnLow, RequestType::FdlStatus, RequestType::SdaLow])
+                };
                 let h = DataTelegramHeader {
                     da: if peers.is_empty() || rng.chance(1, 3) { rng.u8() & 0x7f } else { *rng.pick(peers) },
                     sa: ts,
@@ -909,6 +937,17 @@ pub fn gen(ops: &mut Vec<String>, seed: u64, thorough: bool) {
                         g.op("st.offline".into());
                         g.now += 10;
                         g.poll();
+                        if rng.chance(1, 2) {
+                            // the application list is changed while offline (shorter, longer, same)
+                            let k = rng.below(4) as usize;
+                            g.op(format!("st.napps {k}"));
+                            for i in 0..k {
+                                if rng.bool() {
+                                    let a = random_answers(&mut rng, ts, &peers, 4);
+                                    g.op(format!("st.script {i} {}", a.join(" ")));
+                                }
+                            }
+                        }
                         g.op("st.online".into());
                     }
                     6 => {
